@@ -765,6 +765,17 @@ def _iter_unused_names(
                 subsequent_created, _, subsequent_required = tracing.code_dependencies_outputs(
                     remainder
                 )
+                # A function defined earlier that reads (name) sees whatever is assigned to it by the
+                # time it is called, so later assignments are not redundant.
+                if any(
+                    any(core.walk(closure, ast.Name(id=name, ctx=ast.Load)))
+                    for earlier in sequence[:i]
+                    for closure in core.walk(
+                        earlier,
+                        (ast.FunctionDef, ast.AsyncFunctionDef, ast.Lambda, ast.GeneratorExp),
+                    )
+                ):
+                    continue
                 # (8) If (name) is in its outputs, but (name) is not in the dependencies of
                 # node_sequence[i:],
                 if name in node_created:
